@@ -180,7 +180,15 @@ def uncalled_return_check(ops, n, zero, trimming, tol):
 def check(case, stats):
     cfg = case['config']
     obs = Obs()
-    res = run_case(case, observers=(obs,))
+    hooks = None
+    if cfg.get('deck_seed', 0) % 2:
+        # in half of the cases a "user interface" reads every public property
+        # and accessor between the operations (C15 decides that looking does
+        # not change the hand; here the award oracle judges the observed run)
+        from .c15 import Observe
+        hooks = Observe(cfg['deck_seed'] // 2)
+        stats.count('class:observed_run')
+    res = run_case(case, observers=(obs,), hooks=hooks)
     stats.count('outcome:' + str(res.outcome))
     if res.outcome == 'discard':
         return []
